@@ -178,3 +178,69 @@ def selftest():
     assert type_contains(S(3, -2), vec_fmt("S", 4)) and not type_contains(S(3, 1), vec_fmt("S", 2))
     assert type_contains(U(0, 0), vec_fmt("U", 1)) and type_contains(U(0, -1), U(0, 0))
     return True
+
+
+# ------------------------------------------------------------------------------------------------
+# operation sequences on a variable: every operation result is a VALUE (snapshot at the time of the call)
+# ------------------------------------------------------------------------------------------------
+#
+# State: v = number held by the variable (format A), r = last taken value (number, format or None when
+# the format is chosen by the implementation), s = last sum, e = last comparison.  UNKNOWN marks a number
+# the statement says nothing about (abs of the most negative value); it propagates.
+
+UNKNOWN = "unknown"
+
+
+def take_value(take, fa, v):
+    """(number | UNKNOWN, format | None) of the value-returning operation `take` applied to number v of format fa"""
+    t = take[0]
+    if v is UNKNOWN:
+        return UNKNOWN, (None if t in ("addz", "subz") else (fa[0],) + tuple(take[1]) if t in ("resize", "ctor") else fa)
+    if t == "resize":
+        ft = (fa[0],) + tuple(take[1])
+        raw = resize_raw(fa, encode(fa, v), ft, take[2] or TRUNCATE, take[3] or WRAP)
+        return value(ft, raw), ft
+    if t == "abs":
+        w = abs(v)
+        return (w if representable(fa, w) else UNKNOWN), fa
+    if t == "ctor":
+        ft = (fa[0],) + tuple(take[1])
+        return (v if representable(ft, v) else UNKNOWN), ft
+    if t in ("bits", "raw", "value"):
+        return v, fa
+    if t in ("addz", "subz"):
+        return v, None
+    raise ValueError(take)
+
+
+def run_sequence(fa, seq, a, b, signal=False, v_before=None):
+    """Reference run of one activation.  fa: format of the variable; seq: tuple of letters; a, b: raw inputs.
+    Prologue: v := value(a); r := value(a).   signal=True: v is a signal, reads see v_before during the whole
+    activation and the last assignment becomes visible afterwards.
+    -> dict(v=number visible to the epilogue, v_next=number held after the activation, r=(number, fmt), s=.., e=..)"""
+    va = value(fa, a)
+    vb = value(fa, b)
+    cur = v_before if signal else va
+    nxt = va
+    r = (va, fa)
+    s = None
+    e = None
+    for letter in seq:
+        k = letter[0]
+        if k == "take":
+            r = take_value(letter[1], fa, cur)
+        elif k == "upd_b":
+            nxt = vb
+            if not signal:
+                cur = vb
+        elif k == "upd_r":
+            nxt = r[0]
+            if not signal:
+                cur = r[0]
+        elif k == "add":
+            s = UNKNOWN if (r[0] is UNKNOWN or cur is UNKNOWN) else r[0] + cur
+        elif k == "eq":
+            e = UNKNOWN if (r[0] is UNKNOWN or cur is UNKNOWN) else (r[0] == cur)
+        else:
+            raise ValueError(letter)
+    return {"v": cur, "v_next": nxt, "r": r, "s": s, "e": e}
